@@ -169,17 +169,19 @@ func runC05(c c05Case) vh.Result {
 			}
 			close(fedc)
 			// collect answers until told to stop
-			deadline := time.Now().Add(vh.Margin(1500 * time.Millisecond))
-			for countAnswers(wc.Transcript()) < nR && time.Now().Before(deadline) {
-				if ev := wc.Recv(time.Until(deadline)); ev.Kind == "eof" {
+			// (a context time-out on a WebSocket read closes the connection abruptly, so only long time-outs are used)
+			for countAnswers(wc.Transcript()) < nR {
+				if ev := wc.Recv(vh.Margin(8 * time.Second)); ev.Kind == "eof" || ev.Kind == "timeout" {
 					break
 				}
 			}
-			if c.End != "open" {
-				wc.CloseNow()
-			}
 			o.answers = countAnswers(wc.Transcript())
 			obsc <- o
+			if c.End != "open" {
+				// loss at TCP level (FIN): everything written before it is still delivered to the client
+				wc.DropTCP(3 * time.Second)
+				return
+			}
 			if c.End == "open" {
 				for {
 					if ev := wc.Recv(10 * time.Second); ev.Kind == "eof" || ev.Kind == "timeout" || ev.Kind == "close" {
@@ -240,7 +242,10 @@ func runC05(c c05Case) vh.Result {
 			}
 			switch c.End {
 			case "close":
-				pc.Close()
+				o.answers = countAnswers(pc.Transcript())
+				obsc <- o
+				pc.GracefulClose(3 * time.Second)
+				return
 			case "halfclose":
 				pc.HalfClose()
 			}
@@ -277,11 +282,18 @@ func runC05(c c05Case) vh.Result {
 			disconnect = func() { go func() { _ = cl.Disconnect() }() }
 		}
 	}
-	if connectErr != nil {
-		res.Fail("harness-connect", "Connect failed: %v", connectErr)
-		return res
-	}
 	defer disconnect()
+	if connectErr != nil {
+		// Connect also reports a failed write of the initial presence: when the peer ends the connection right
+		// after a short feed that can happen although the session was established and the receive loop runs.
+		select {
+		case <-fedc:
+			res.Label("connect-error-after-establishment")
+		case <-time.After(2 * time.Second):
+			res.Fail("harness-connect", "Connect failed: %v", connectErr)
+			return res
+		}
+	}
 	select {
 	case <-fedc:
 	case o := <-failc:
